@@ -233,6 +233,38 @@ theorem build_returns_only_checked (ch ch' : List Bool) :
   ⟨safeBody_sound generated_to_model_safe ch, safeBody_sound generated_build_safe.1 ch',
    safeBody_no_fall generated_to_model_safe ch, safeBody_no_fall generated_build_safe.1 ch'⟩
 
+/-! ### known finding `dup-value:version-converter-fresh-name`
+
+The full-strength statement "whenever `build` returns, every value name of the model is defined
+once" is **false** of the code as it is: names invented by `onnx.version_converter` during per-node
+adaptation (`_v_4`, …) never pass through the scope, so the scope theorems above (which hold for every
+name the scope hands out) do not cover them. `adapterWitness` is the name structure of the model
+`build` really returns for the committed replay `findings/C02-adapter-fresh-name.json`
+(a v17 `ReduceMax` inside a Loop body whose other operator needs opset 19, and another v17 `ReduceMax`
+after the loop). What *is* proved excludes exactly these names: `names_unique` /
+`compile_names_unique` speak about the names issued by the scope, `checkStructural_sound` about each
+returned model individually (and the checker run on the real model rejects this one). -/
+def adapterWitness : Named.NGraph :=
+  .mk ["x"] [] [
+    .mk "Constant_0" [] ["Constant_0_output"] [],
+    .mk "Loop_0" ["Constant_0_output", "", "x"] ["Loop_0_v_final_and_scan_outputs_0"] [.mk ["Loop_0_body__Argument_0_arg", "Loop_0_body__Argument_1_arg", "Loop_0_body__Argument_2_arg"] [] [
+        .mk "" [] ["_v_4"] [],
+        .mk "Loop_0_body__ReduceMax_0" ["Loop_0_body__Argument_2_arg", "_v_4"] ["Loop_0_body__ReduceMax_0_reduced"] [],
+        .mk "Loop_0_body__Add_0" ["Loop_0_body__Argument_2_arg", "Loop_0_body__ReduceMax_0_reduced"] ["Loop_0_body__Add_0_C"] [],
+        .mk "Loop_0_body__Identity_0" ["Loop_0_body__Add_0_C"] ["Loop_0_body__Identity_0_output"] [],
+        .mk "Loop_0_body__Introduce_0_id0" ["Loop_0_body__Argument_1_arg"] ["Loop_0_body__Introduce_0_outputs_0"] [],
+        .mk "Loop_0_body__Introduce_0_id1" ["Loop_0_body__Identity_0_output"] ["Loop_0_body__Introduce_0_outputs_1"] []] ["Loop_0_body__Introduce_0_outputs_0", "Loop_0_body__Introduce_0_outputs_1"]],
+    .mk "" [] ["_v_4"] [],
+    .mk "ReduceMax_0" ["Loop_0_v_final_and_scan_outputs_0", "_v_4"] ["ReduceMax_0_reduced"] [],
+    .mk "Add_0" ["Loop_0_v_final_and_scan_outputs_0", "ReduceMax_0_reduced"] ["Add_0_C"] [],
+    .mk "Introduce_0_id0" ["Add_0_C"] ["y"] []] ["y"]
+
+/-- the returned model of the witness defines `_v_4` twice — the negation of "every value name is
+    defined exactly once" on a concrete output of the pinned code; the structural checker rejects it -/
+theorem adapter_names_counterexample :
+    ¬ (Named.valueNames (Named.defsG adapterWitness)).Nodup ∧ Named.checkStructural adapterWitness = false := by
+  decide
+
 /-! ### non-vacuity -/
 
 def outcome {α} : Except Err α → Option Err
